@@ -308,15 +308,14 @@ RDFlag(r) ==
      IN
      IF I[i].destroyed
        THEN AfterDestroy(r, [I EXCEPT ![i].closing = 1]) /\ UNCHANGED used
-       ELSE IF closeOwns /\ ~Has("StaleDestroy")
-       THEN \* strict: whoever raised the flag owns the teardown.  An auto-destroy just returns (the swamp is being
-            \* closed, nothing is lost); an explicit Destroy waits for the close and destroys the successor.
-            /\ IF auto[r] THEN AfterDestroy(r, [I EXCEPT ![i].vigils = @ + 1])   \* BeginVigil again: the handler's deferred CeaseVigil follows
-               ELSE pc' = [pc EXCEPT ![r] = "resummon"] /\ UNCHANGED <<I, res, cands>>
+       ELSE IF closeOwns /\ auto[r] /\ ~Has("StaleDestroy")
+       THEN \* strict: an auto-destroy that finds Close() already tearing the instance down just returns (the swamp is
+            \* being closed, nothing is lost): BeginVigil again, the handler's deferred CeaseVigil follows
+            /\ AfterDestroy(r, [I EXCEPT ![i].vigils = @ + 1])
             /\ UNCHANGED used
        ELSE /\ I' = [I EXCEPT ![i].closing = 1, ![i].destroyed = TRUE]
             /\ pc' = [pc EXCEPT ![r] = "d_drain"] /\ UNCHANGED <<res, cands>>
-            /\ used' = IF closeOwns THEN used \cup {"StaleDestroy"} ELSE used
+            /\ used' = IF closeOwns /\ auto[r] THEN used \cup {"StaleDestroy"} ELSE used
   /\ Obs("RDFlag", r, ref[r])
   /\ UNCHANGED <<shut, map, ninst, file, fexists, op, ref, auto, cpc, clist, lidle, starget, before>>
 
